@@ -45,6 +45,10 @@ def verify_unit(name, tier, seed, workdir=None):
     seeds = [None] if tier == 'quick' else [None, seed * 3 + 1, seed * 3 + 2]
     for s in seeds:
         r = run_verus(name if s is None else f'{name}_s{s}', text, workdir, rlimit=rl, seed=s)
+        if s is not None:       # the per-seed file name must not leak into the obligation names that are compared across seeds
+            for f_ in r['failures']:
+                if f_['id'].startswith(f'{name}_s{s}.'):
+                    f_['id'] = name + f_['id'][len(f'{name}_s{s}'):]
         runs.append(r)
     r = runs[0]
     res = {'unit': name, 'status': 'ok', 'reason': '', 'failures': r['failures'], 'cmd': r['cmd'], 'wall_s': time.time() - t0,
